@@ -123,7 +123,7 @@ func runC14(c *wk.Ctx) {
 	c.Floor("reference_state_checks", 500)
 	c.Floor("recursive_inputs", 100)
 	tricky := gen.TrickyShapes()
-	n := c.N(2500, 80000)
+	n := c.N(2500, 800000)
 	c.Cases(n, func(idx int64, r *wk.Rand) {
 		// ---- (c) recursive shapes -----------------------------------------------------
 		if idx < int64(3*len(tricky)) {
